@@ -5722,9 +5722,12 @@ class NameCheckVisitor(node_visitor.ReplacingNodeVisitor):
                     )
                 )
 
-                if self.match_subject.value is NO_RETURN_VALUE:
-                    self._set_name_in_scope(LEAVES_SCOPE, node, NO_RETURN_VALUE)
-                else:
+                if self.match_subject.value is not NO_RETURN_VALUE:
+                    # Some value of the subject matches no case: control can fall
+                    # through the match statement. (If the cases are exhaustive,
+                    # only the case bodies can reach the code after the match; the
+                    # enclosing scope itself must not be marked as left, or an
+                    # enclosing if/loop/try would discard this whole branch.)
                     with self.scopes.subscope() as else_scope:
                         for constraint in constraints_to_apply:
                             self.add_constraint(node, constraint)
